@@ -216,6 +216,7 @@ def run(ctx, prog, S, M, T, hints):
     from checks import c03_card
 
     c03_card.run(ctx, prog, S, M, T, E)
+    c03_card.run_required(ctx, prog, S, M, T)
     if nsites == 0:
         ctx.error("R3.5b", "no attach site of an incomplete element recognised (recogniser broken?)")
 
